@@ -161,13 +161,13 @@ Definition unlock_step (c : nat) (f : fault) (r : result) (R : remote) (L : clie
 
 (* LockWithTimeout (sharedcache_mutable.go:66-73, 107-114).  A live foreign holder: keep trying (NoF) or time out (FErr). *)
 Definition lock_step (P : params) (c : nat) (f : fault) (next : pc) (R : remote) (L : client) : remote * client :=
-  let give_up := ((if p_defer_first P then set_lock LFree R else R), at_pc L (Done Err)) in
+  let no_acquire := ((if p_defer_first P then set_lock LFree R else R), at_pc L (Done Err)) in
   match r_lock R, f with
   | LFree, NoF => (set_lock (LHeld c true) R, at_pc L next)
-  | LFree, _ => give_up                         (* Mkdir of the lock directory fails *)
+  | LFree, _ => no_acquire                         (* Mkdir of the lock directory fails *)
   | LHeld _ true, NoF => (R, L)                 (* locked: wait and retry *)
-  | LHeld _ true, _ => give_up                  (* timeout *)
-  | LHeld _ false, _ => give_up                 (* ErrStaleLock *)
+  | LHeld _ true, _ => no_acquire                  (* timeout *)
+  | LHeld _ false, _ => no_acquire                 (* ErrStaleLock *)
   end.
 
 Definition tgt (P : params) (u : nat) : fname := match p_kind P with Mutable => Cache | Immutable => PartF u end.
